@@ -450,6 +450,23 @@ func runC04(env *Env, tier string) {
 	if m.open {
 		recoverNow()
 	}
+	if !env.Failed() && p.Connected() && ch.Chance("gaprevealedbyresendrequest", 1, 12) {
+		// The message that reveals the gap is the counterparty's own ResendRequest (both sides asking each other
+		// after a reconnect is the normal picture). It is answered at once; like any message ahead of the expected
+		// number it must open a recovery. The run ends here and is fingerprinted as this condition: the
+		// engine answers such a request but neither asks for the gap nor keeps the message (known finding - four
+		// upstream tests expect exactly that, so it cannot be repaired with the test suite unedited).
+		env.FingerprintAs = "C04/gap-revealed-by-resend-request"
+		env.Stat("probe_gap_revealed_by_resend_request")
+		for i := 1 + ch.Choose("gap", 5); i > 0; i-- {
+			alloc(ch.Chance("plan", 1, 2))
+		}
+		n := alloc(false)
+		f, _ := p.Build("2", []wire.Field{wire.FI(7, 1), wire.FI(16, 0)}, MsgOpt{Seq: n})
+		m.deliver(fmt.Sprintf("counterparty's resendrequest seq=%d", n), f, n, []int{n}, MsgOpt{Seq: n})
+		env.Nontrivial = true
+		return
+	}
 	rounds := 1 + ch.Choose("rounds", 4)
 	for round := 0; round < rounds && !env.Failed() && p.Connected(); round++ {
 		// some in-sequence traffic
